@@ -62,6 +62,13 @@ def pscale(c, p):
   return dict((k, c * v) for k, v in p.items() if c * v != 0)
 
 
+def has_sum(t):
+  """ Does the tree contain an operation with two natural results? """
+  if t["op"] in ("add", "sub", "addc", "copyadd", "dupscale"):
+    return True
+  return any(has_sum(t[k]) for k in ("a", "b") if k in t)
+
+
 class C06(Property):
   id = "C06"
   engine = "dataflow"
@@ -146,6 +153,17 @@ class C06(Property):
       tree = single()
     elif shape in ("add", "mul"):
       tree = {"op": shape, "a": single(), "b": single()}
+      if shape == "mul" and W.chance("matching-num-den", 1, 3):
+        # a constant polynomial that is the numerator of one factor and the
+        # denominator of the other (cancelling it is only valid for LTI)
+        poly = [[0, ["c", W.pick("mc0", [1, 2, -1])]],
+                [1 + W.choose("mk", 2), ["c", W.pick("mc1", [3, -2, 1])]]]
+        tree["a"]["num"] = [list(x) for x in poly]
+        tree["b"]["den"] = [list(x) for x in poly]
+        if tree["b"]["route"] == "quot":
+          tree["b"]["route"] = "expr"
+        if tree["a"]["route"] == "lists":
+          tree["a"]["route"] = "expr"
       if shape == "add" and W.chance("same-den", 1, 3):
         # equal constant denominators: the shortcut of ZFilter.__add__
         tree["b"]["den"] = [[k, ["c", c[1]] if c[0] == "c" else ["c", 2]]
@@ -321,6 +339,10 @@ class C06(Property):
       {"tree": single([[0, ["h", 1]], [1, C(2)], [2, ["h", 1]]],
                       [[0, C(1)], [1, ["h", 1]]]),
        "lens": {"1": 9}, "xlen": None, "cstream": 0},
+      {"tree": {"op": "mul",
+                "a": single([[0, C(1)], [1, C(-2)]], [[0, C(1)], [1, S(1)]]),
+                "b": single([[0, C(2)], [2, S(2)]], [[0, C(1)], [1, C(-2)]])},
+       "lens": {"1": None, "2": None}, "xlen": 9, "cstream": 0},
       {"tree": {"op": "cascade", "a": single([[1, S(1)]]),
                 "b": single([[1, S(2)], [2, C(1)]])},
        "lens": {"1": None, "2": 9}, "xlen": None, "cstream": 0},
@@ -667,6 +689,20 @@ class C06(Property):
           raise _Mismatch("algebra", "n=%d: composite num %r den %r is not the "
                           "%s of its operands (num %r den %r)"
                           % (n, na, da, sub["op"], ns, ds))
+        elif not has_sum(sub):
+          # products, quotients, powers, negation and scaling act on the
+          # coefficient sequences term by term: the result's own sequences
+          # are the polynomial products (sums of fractions have two natural
+          # forms - equal denominators or cross-multiplied - so trees with a
+          # sum in them are only held to rational-function equality above)
+          shift = min(ds) if ds else 0
+          ns2 = dict((k - shift, v) for k, v in ns.items())
+          ds2 = dict((k - shift, v) for k, v in ds.items())
+          if na != ns2 or da != ds2:
+            raise _Mismatch("algebra:coefficient-sequences",
+                            "n=%d: %s has num %r den %r, the term-by-term "
+                            "result is num %r den %r"
+                            % (n, sub["op"], na, da, ns2, ds2))
 
       # ---- expected output: the difference equation on A's own sequences
       order = max(denA)
